@@ -74,7 +74,7 @@ def poison_suite(ctx, rnd, thorough):
               [" ORG $2000\n", "VERYLONGLABELNAME1 NOP \n", " LDX #VERYLONGLABELNAME1\n", " INCLUDE lib.asm\n", " JMP DONE\n", " LDA LIBTOP,PCR\n"],
               [" ORG $0100\n", "A1 LEAX A3,PCR\n", " RMB 120\n", "A2 LDA A1,PCR\n", "A3 LBRA A1\n", " FCC /text/\n", " FDB $1234,5\n"]]
     firsts = []
-    n = 12000 if thorough else 1200
+    n = 6000 if thorough else 1200
     bad, _ = asmgen.table(ctx.tier, "invalid")
     base = [README] + [Case(proggen.gen_program(rnd, 4, 10)[0]).lines for _ in range(20)]
     for k in range(n):
